@@ -49,10 +49,19 @@ type finding struct {
 }
 
 var (
+	outDir   string // where evidence/, replays/ and .work/ go (VERIF_OUT, default verifDir)
 	verifDir string
 	repoDir  = "/repo"
 	goEnv    []string
 )
+
+// findingsPath: the committed known-findings file (VERIF_FINDINGS overrides it for experiments only).
+func findingsPath() string {
+	if v := os.Getenv("VERIF_FINDINGS"); v != "" {
+		return v
+	}
+	return filepath.Join(verifDir, "KNOWN_FINDINGS.txt")
+}
 
 func must(err error) {
 	if err != nil {
@@ -62,7 +71,7 @@ func must(err error) {
 }
 
 func loadFindings() []finding {
-	f, err := os.Open(filepath.Join(verifDir, "KNOWN_FINDINGS.txt"))
+	f, err := os.Open(findingsPath())
 	if err != nil {
 		return nil
 	}
@@ -115,6 +124,10 @@ func build(race bool) (string, error) {
 		args = append(args, "-race")
 	}
 	bin := filepath.Join(verifDir, "bin", name)
+	if outDir != verifDir {
+		os.MkdirAll(filepath.Join(outDir, "bin"), 0o755)
+		bin = filepath.Join(outDir, "bin", name)
+	}
 	hdir := filepath.Join(verifDir, "harness")
 	if alt := os.Getenv("VERIF_REPO"); alt != "" && alt != "/repo" {
 		// selftest against a scratch copy: private modfile with the replace redirected
@@ -122,7 +135,7 @@ func build(race bool) (string, error) {
 		if err != nil {
 			return "", err
 		}
-		mf := filepath.Join(verifDir, ".work", "alt.mod")
+		mf := filepath.Join(outDir, ".work", "alt.mod")
 		os.MkdirAll(filepath.Dir(mf), 0o755)
 		os.WriteFile(mf, bytes.ReplaceAll(b, []byte("=> /repo"), []byte("=> "+alt)), 0o644)
 		sum, _ := os.ReadFile(filepath.Join(hdir, "go.sum"))
@@ -203,7 +216,7 @@ func runRange(rc runCfg, id int, from, to int) batchResult {
 		os.Remove(evp)
 		args := []string{"-s", "QUIT", fmt.Sprintf("%d", int(rc.watchdog.Seconds())), rc.bin,
 			"-prop", rc.prop, "-seed", fmt.Sprint(rc.seed), "-tier", rc.tier, "-from", fmt.Sprint(from), "-to", fmt.Sprint(to),
-			"-out", evp, "-findings", filepath.Join(verifDir, "KNOWN_FINDINGS.txt"), "-sample-every", "997"}
+			"-out", evp, "-findings", findingsPath(), "-sample-every", "997"}
 		args = append(args, rc.extra...)
 		cmd := exec.Command("timeout", args...)
 		cmd.Env = append(os.Environ(), rc.env...)
@@ -286,6 +299,11 @@ func main() {
 	if v := os.Getenv("VERIF_DIR"); v != "" {
 		verifDir = v
 	}
+	outDir = verifDir
+	if v := os.Getenv("VERIF_OUT"); v != "" {
+		outDir = v
+		os.MkdirAll(outDir, 0o755)
+	}
 	goEnv = append(os.Environ(), "GOFLAGS=-mod=mod", "GOPROXY=off", "GOSUMDB=off", "GOTOOLCHAIN=local")
 
 	if len(os.Args) < 2 {
@@ -329,7 +347,7 @@ func cmdReplay(args []string) int {
 		fmt.Fprintln(os.Stderr, err)
 		return 2
 	}
-	work := filepath.Join(verifDir, ".work", "replay")
+	work := filepath.Join(outDir, ".work", "replay")
 	os.MkdirAll(work, 0o755)
 	viol, crashed, detail := replayOne(bin, args[0], work)
 	if viol || crashed {
@@ -346,12 +364,12 @@ func replayOne(bin, file, work string) (violates, crashed bool, detail string) {
 	evp := filepath.Join(work, "replay-"+filepath.Base(file)+".jsonl")
 	errp := evp + ".stderr"
 	os.Remove(evp)
-	cmd := exec.Command("timeout", "-s", "QUIT", "300", bin, "-replay", file, "-out", evp, "-findings", filepath.Join(verifDir, "KNOWN_FINDINGS.txt"))
+	cmd := exec.Command("timeout", "-s", "QUIT", "300", bin, "-replay", file, "-out", evp, "-findings", findingsPath())
 	raceLog := ""
 	if b, err := os.ReadFile(file); err == nil && bytes.Contains(b, []byte(`"race": true`)) || bytes.Contains(b, []byte(`"race":true`)) {
 		if rb, err := build(true); err == nil {
 			raceLog = filepath.Join(work, "replay-race-"+filepath.Base(file))
-			cmd = exec.Command("timeout", "-s", "QUIT", "300", rb, "-replay", file, "-out", evp, "-findings", filepath.Join(verifDir, "KNOWN_FINDINGS.txt"))
+			cmd = exec.Command("timeout", "-s", "QUIT", "300", rb, "-replay", file, "-out", evp, "-findings", findingsPath())
 			cmd.Env = append(os.Environ(), "GORACE=halt_on_error=0 log_path="+raceLog)
 		}
 	}
@@ -423,7 +441,7 @@ func cmdRun(args []string) int {
 	must(err)
 	runBin := bin
 	var env []string
-	work := filepath.Join(verifDir, ".work", fmt.Sprintf("%s-%s-%d", prop, *tier, seed))
+	work := filepath.Join(outDir, ".work", fmt.Sprintf("%s-%s-%d", prop, *tier, seed))
 	os.RemoveAll(work)
 	os.MkdirAll(work, 0o755)
 	if race {
@@ -578,7 +596,7 @@ func cmdRun(args []string) int {
 	}
 	_ = viol{}
 
-	repDir := filepath.Join(verifDir, "replays", prop)
+	repDir := filepath.Join(outDir, "replays", prop)
 	os.MkdirAll(repDir, 0o755)
 	ruleCount := map[string]int{}
 	for _, v := range viols {
@@ -635,7 +653,7 @@ func cmdRun(args []string) int {
 		// fetch the case for the replay file
 		var body []byte
 		if c.index >= 0 {
-			body, _ = exec.Command(bin, "-prop", prop, "-seed", fmt.Sprint(seed), "-tier", *tier, "-from", fmt.Sprint(c.index), "-to", fmt.Sprint(c.index+1), "-print", "-findings", filepath.Join(verifDir, "KNOWN_FINDINGS.txt")).Output()
+			body, _ = exec.Command(bin, "-prop", prop, "-seed", fmt.Sprint(seed), "-tier", *tier, "-from", fmt.Sprint(c.index), "-to", fmt.Sprint(c.index+1), "-print", "-findings", findingsPath()).Output()
 		}
 		var m map[string]any
 		if json.Unmarshal(body, &m) != nil {
@@ -730,9 +748,9 @@ func cmdRun(args []string) int {
 		"wall_s":     time.Since(t0).Seconds(),
 		"violations": violations,
 	}
-	os.MkdirAll(filepath.Join(verifDir, "evidence"), 0o755)
+	os.MkdirAll(filepath.Join(outDir, "evidence"), 0o755)
 	b, _ := json.MarshalIndent(ev, "", " ")
-	must(os.WriteFile(filepath.Join(verifDir, "evidence", prop+".json"), b, 0o644))
+	must(os.WriteFile(filepath.Join(outDir, "evidence", prop+".json"), b, 0o644))
 
 	sort.SliceStable(lines, func(i, j int) bool { return false })
 	for _, l := range lines {
